@@ -184,6 +184,25 @@ def run(pid, tier):
         o.finding(kind=ev.get('op'), case=ev.get('case'), i=ev.get('i'), res=str(ev.get('res'))[:80], show=ev.get('show'), event=ev,
                   signature='%s:%s:%s' % (ev.get('op'), ev.get('case'), ev.get('i')))
     o.samples.append({'kind': 'Geometric: measured remainder-acceptance prefix', 'event': json.loads(gl[-1])})
+    # BINV for parameters that are not small dyadics (incl. tiny p with huge n): exact one-word law against the documented CDF
+    bvf = wd / 'binv.ndjson'
+    r16 = tlc('MCBinv', 'MCBinv.cfg', pid, 'binv_cases', workers=1, timeout=1200, heap='2g', env={'TIER': tier}, pipe_to=[str(RDV), 'btpe-drive', '--out', str(bvf)])
+    require_ok(r16, 'MCBinv')
+    s16 = json.loads(r16.consumer_out.strip().splitlines()[-1])
+    if s16['events'] < 14:
+        raise ToolError('btpe-drive (binv): too few events: %s' % s16)
+    r17 = tlc('TraceBtpe', 'TraceBtpe.cfg', pid, 'binv_trace', trace_mode=True, env={'TRACE': bvf, 'TIER': tier}, timeout=1200, heap='4g')
+    require_ok(r17, 'TraceBtpe (binv)')
+    if r17.rejected or r17.violated:
+        raise ToolError('binv trace not consumed: %s' % (r17.rejected or r17.violated))
+    bl = bvf.read_text().splitlines()
+    o.add_tlc(r17, 'TraceBtpe: exact BINV laws (one word per try, bisection per x) of %d parameter points against the documented CDF of BinvTable, %d values of x' % (s16['events'], sum(len(json.loads(l)['T']) for l in bl)))
+    o.traces += len(bl)
+    o.extra['binv_drive'] = s16
+    for (ln, ev) in parse_bad(r17.out):
+        o.finding(kind='binv', case=ev.get('case'), res=str(ev.get('res'))[:80], show=ev.get('show'), event={k: v for k, v in ev.items() if k != 'T'},
+                  signature='binv:%s' % ev.get('case'))
+    o.samples.append({'kind': 'BINV: exact one-word law, prefix counts per x', 'event': json.loads(bl[0])})
     o.samples.append({'kind': 'Knuth method: exact P(X = 0) of Poisson<f64>', 'event': {k: v for k, v in json.loads(klines[-5]).items() if k != 'probes'}})
     o.samples.append({'kind': 'exact law of a two-word rejection sampler (f32) over 2^48 tickets', 'event': {k: v for k, v in json.loads(rlines[0]).items() if k != 'probes'}})
     o.samples.append({'kind': 'ticket histogram (real sampler -> TraceDiscrete)', 'event': next(e for e in evs if e['op'] == 'hist' and e['kind'] == 'hin' and e['par'][0] >= 8)})
@@ -199,7 +218,8 @@ def run(pid, tier):
         'Poisson PD (lambda >= 12) is decided POINTWISE in its main path: at the anchors of spec/PdTable.tla (7 values of lambda, k within 3.2 sigma below l, f64 and f32) the uniform words that return k after a normal deviate with floor k are a suffix of relative length '
         '1 - min((lambda-k)^3/d, 1 - pmf(k)/hat(k)) with pmf the Poisson pmf itself (2^-24 / 2^-15); the immediate-acceptance step I is structural (k >= l returns without a uniform draw); the double-exponential branch (steps E / H) likewise at 5 exponential deviates per lambda: the accepted uniform words form an interval around the middle word with half-lengths (pmf(k2) - hat(k2)) exp(e) / (2c) (2^-19 / 2^-12); everything between anchors is NOT decided',
         'Zipf<f64> / Zeta<f64> are decided POINTWISE at the anchors of spec/Rej64Table.tla (13 parameter points, first uniform j/16 and, for Zeta, proposals up to 2^320): the proposal is the table\'s and the accepting second uniform words are a prefix of the documented relative length (2^-40); between the anchors NOT decided',
-        'Geometric(p) is decided POINTWISE at the anchors of spec/GeoTable.tla (17 values of p incl. non-dyadic, both sides of 2/3, k = 1 .. 40): trivial algorithm - the words returning 0 at once are exactly (floor(p 2^53) + 1) 2^11; Bringmann-Friedrich - k is the documented one, the words continuing the D loop are a prefix of relative length (1-p)^(2^k) and the uniform words accepting a remainder m (incl. m on both sides of 2^31, where the code changes from powi to powf) a prefix of relative length (1-p)^m, each to 2^-40 + e 2^-50 (e the exponent: what evaluating the documented formula in f64 allows); between the anchors NOT decided',
+        'BINV beyond dyadic p: at the 14 (thorough 29) parameter points of spec/BinvTable.tla (non-dyadic p, flipped p, n up to 2^55 with p down to 2^-53) the law of the one-word inversion is exact: #{words with X <= x} / #{one-word returns} equals the documented Binomial CDF to 2^-40 for every x up to the 2^-46 tail',
+        'Geometric(p) is decided POINTWISE at the anchors of spec/GeoTable.tla (22 values of p incl. the dyadic ones of the scripted classes, non-dyadic, both sides of 2/3, k = 1 .. 40; thorough 39 values down to p = 3e-16): trivial algorithm - the words returning 0 at once are exactly (floor(p 2^53) + 1) 2^11; Bringmann-Friedrich - k is the documented one (a neighbour where the comparison with 1/2 is within f64 noise: any k gives the documented law), the words continuing the D loop are a prefix of relative length (1-p)^(2^k) and the uniform words accepting a remainder m (incl. m on both sides of 2^31) a prefix of relative length (1-p)^m, each to 2^-40 with p the exact value of the f64; between the anchors NOT decided',
         'Zipf/Zeta: the documented pmf values are mpmath constants of spec/RejectionTable.tla; the law formula A_k / A assumes two words per iteration and an acceptance region that is a prefix of the acceptance lattice, '
         'both checked (other = 0; probes) - and is itself checked by ticket enumeration on a toy instance (RejToy.tla, with a deliberately wrong variant that must fail)',
         'half a ticket (>= 2^-31) is eleven orders of magnitude above the rounding error of the code\'s recurrences',
